@@ -341,8 +341,25 @@ pub fn call<B: Bk>(
         .max(m.vec_znx_normalize_tmp_bytes())
         .max(m.vec_znx_mul_xp_minus_one_assign_tmp_bytes())
         + 256;
+    with_scratch::<B, _>(bytes, sg, |s| call_with::<B>(m, op, p, res, a, b, s))
+}
+
+/// the real call with the scratch the caller provides
+#[allow(clippy::too_many_arguments)]
+pub fn call_with<B: Bk>(
+    m: &Module<B>,
+    op: Op,
+    p: i64,
+    res: &mut GLWE<Vec<u8>>,
+    a: &GLWE<Vec<u8>>,
+    b: &GLWE<Vec<u8>>,
+    s: &mut Scratch<B>,
+) where
+    Module<B>: HalAll<B> + CoreAll<B>,
+    Scratch<B>: ScratchTakeCore<B>,
+{
     let k = p.unsigned_abs() as usize;
-    with_scratch::<B, _>(bytes, sg, |s| match op {
+    match op {
         Op::AddInto => m.glwe_add_into(res, a, b),
         Op::AddAssign => m.glwe_add_assign(res, a),
         Op::Sub => m.glwe_sub(res, a, b),
@@ -362,7 +379,23 @@ pub fn call<B: Bk>(
         Op::LshSub => m.glwe_lsh_sub(res, a, k, s),
         Op::Normalize => m.glwe_normalize(res, a, s),
         Op::NormalizeAssign => m.glwe_normalize_assign(res, s),
-    })
+    }
+}
+
+/// the operation's own companion scratch query (None: the operation takes no scratch). glwe_mul_xp_minus_one_assign
+/// has no core-level query: the HAL query of the kernel it delegates to is its companion.
+pub fn own_tmp_bytes<B: Bk>(m: &Module<B>, op: Op) -> Option<usize>
+where
+    Module<B>: HalAll<B> + CoreAll<B>,
+    Scratch<B>: ScratchTakeCore<B>,
+{
+    match op {
+        Op::RotateAssign => Some(m.glwe_rotate_tmp_bytes()),
+        Op::MulXpMinusOneAssign => Some(m.vec_znx_mul_xp_minus_one_assign_tmp_bytes()),
+        Op::Rsh | Op::LshAssign | Op::Lsh | Op::LshAdd | Op::LshSub => Some(m.glwe_shift_tmp_bytes()),
+        Op::Normalize | Op::NormalizeAssign => Some(m.glwe_normalize_tmp_bytes()),
+        _ => None,
+    }
 }
 
 /// fixed clear "secret" used only to evaluate phases (3 columns, ternary)
